@@ -245,7 +245,7 @@ def ob_regex_filter(ctx: Ctx) -> Outcome:
                     break
             else:
                 undecided_members.append(s)
-            cur = cur - A.concat(al, [s])
+            cur = cur - A.concat(al, [frozenset({c}) for c in w])  # the whole class-word: one representative per word is replayed
         if not shown and not wits:
             return Outcome.undecided("dfa", f"the filter accepts strings outside the reference fragment language (e.g. {undecided_members[:3]}) that the GBNF reader nevertheless accepts: reference description needs review")
     if wits:
